@@ -66,6 +66,10 @@ class Gen:
         self.hits: dict[str, int] = {}
         self.array_variety = True        # integer / non-contiguous coefficient arrays
         self.clone_leaves = True         # equal-named but distinct Variable objects for one variable
+        # NumPy scalar types / 0-d arrays as exponents and constants.  optyx stores them as ndarray-valued Constants, for which
+        # its degree analysis (soundly) answers None and its power rule takes the general a**b route: behaviour the Coq syntax
+        # (Const Q) does not distinguish, so only the checks that allow for it switch this on (C04)
+        self.numpy_scalars = False
 
     def hit(self, k):
         self.hits[k] = self.hits.get(k, 0) + 1
@@ -292,6 +296,17 @@ class Gen:
             return vector_sum(self.vec(depth=1))
         return self.view().sum()
 
+    def np_scalar(self, p):
+        """The number as a user may hold it: Python int/float (mostly) or a NumPy scalar type / 0-d array."""
+        r = self.rng
+        if not self.numpy_scalars or r.random() < 0.7:
+            return p
+        self.hit("exp:numpy-type")
+        kinds = [np.float64, np.float32, lambda t: np.array(float(t)), np.float16]
+        if float(p) == int(p):
+            kinds += [np.int64, np.int32, lambda t: np.array(int(t))]
+        return r.choice(kinds)(p)
+
     def clone(self, v):
         """A distinct Variable object denoting the same variable (same name, bounds, domain) - what a helper like
         `def v(i): return Variable(f"v{i}")` called once per mention produces."""
@@ -330,7 +345,7 @@ class Gen:
             if op == "**":
                 if poly or r.random() < 0.8:
                     p = r.choice(NAT_POWS if poly else ANY_POWS)
-                    return a ** p
+                    return a ** self.np_scalar(p)
                 return a ** self.expr(depth - 2)
             if op == "/" and (poly or r.random() < 0.5):
                 return a / r.choice([2, 4, 0.5, -2, 1])
@@ -405,8 +420,15 @@ class Gen:
                ("f+v", lambda f: f + leaf()), ("v-f", lambda f: leaf() - f), ("f*v", lambda f: f * leaf()), ("v*f", lambda f: leaf() * f),
                ("C-f", lambda f: Constant(c()) - f), ("C*f", lambda f: Constant(cn()) * f), ("f/C", lambda f: f / Constant(cn())),
                ("f/(C/c)", lambda f: f / (Constant(4.0) / 2)), ("f*(C+c)", lambda f: f * (Constant(cn()) + 1))]
+        if self.numpy_scalars:
+            ctx += [("f**i64(2)", lambda f: f ** np.int64(2)), ("f**arr(2)", lambda f: f ** np.array(2)), ("f**f32(2)", lambda f: f ** np.float32(2.0)),
+                    ("i64*f", lambda f: np.int64(3) * f), ("f+f32", lambda f: f + np.float32(1.5)), ("f**i64(1)", lambda f: f ** np.int64(1)),
+                    ("f**f32(0.5)", lambda f: f ** np.float32(0.5)), ("f**arr(2.5)", lambda f: f ** np.array(2.5)),
+                    ("f**arr(-0.5)", lambda f: f ** np.array(-0.5)), ("f**f32(1.5)", lambda f: f ** np.float32(1.5)),
+                    ("f**f16(0.5)", lambda f: f ** np.float16(0.5)), ("f**arr(-1)", lambda f: f ** np.array(-1.0))]
         if self.profile != "poly":
             ctx += [("c/f", lambda f: cn() / f), ("f**-1", lambda f: f ** -1), ("f**0.5", lambda f: f ** 0.5), ("f**1.5", lambda f: f ** 1.5),
+
                     ("f**-2", lambda f: f ** -2), ("v/f", lambda f: leaf() / f), ("exp", lambda f: FN["exp"](f)), ("sin", lambda f: FN["sin"](f)),
                     ("sqrt", lambda f: FN["sqrt"](f)), ("log", lambda f: FN["log"](f)), ("tanh", lambda f: FN["tanh"](f)),
                     ("f**v", lambda f: f ** leaf()), ("c**f", lambda f: Constant(2.0) ** f)]
